@@ -205,17 +205,25 @@ func (s *session) histories(b *valpool.Builder) error {
 		st := steps[i]
 		c.Distinct(fmt.Sprintf("hist|%s|%d|%d|%v", st.Op, st.C, st.R, st.Pre))
 	}
+	why := map[int][]string{}
+	var order []int
 	for _, bc := range bad {
-		st := steps[bc.Index]
+		if _, ok := why[bc.Index]; !ok {
+			order = append(order, bc.Index)
+		}
+		why[bc.Index] = append(why[bc.Index], fmt.Sprint(bc.Info...))
+	}
+	for _, k := range order {
+		st := steps[k]
 		cls := s.classes[st.C-1]
 		if len(st.dupcls) > 0 {
 			cls = s.classes[st.dupcls[0]]
 		}
-		why := fmt.Sprint(bc.Info...)
+		why := strings.Join(why[k], "+")
 		s.reject(s.keyFor(cls, why), fmt.Sprintf("%s: history %d step %d (%d fillers): %s on class %s through %s: rejected (%s): pre %v post %v len %d found %v val %d",
 			st.Via, st.H, st.S, st.fill, st.Op, s.classes[st.C-1].name, s.classes[st.C-1].all()[st.R-1].desc, why, st.Pre, st.Post, st.Len, st.Found, st.Val),
 			map[string]any{"kind": "history", "step": st})
 	}
-	c.Logf("V: %d histories, %d recorded steps judged, %d rejected", nh, len(steps), len(bad))
+	c.Logf("V: %d histories, %d recorded steps judged, %d rejected", nh, len(steps), len(order))
 	return nil
 }
